@@ -124,9 +124,12 @@ def run_check(spec, prop, tier, seed, t0):
         rc, out = vlib.build_harness()
     harness_ok = (rc == 0)
     if not harness_ok:
-        rp = write_replay(prop, dict(kind="harness-does-not-compile", log=out[-4000:],
-                                     broken="correspondence harness does not compile against /repo's working tree"))
-        violations.append((rp, "no-failing-input-found"))
+        before = len(violations)
+        spec.harness_broken(prop, violations)     # a property-specific search for a failing input
+        if len(violations) == before:
+            rp = write_replay(prop, dict(kind="harness-does-not-compile", log=out[-4000:],
+                                         broken="correspondence harness does not compile against /repo's working tree"))
+            violations.append((rp, "no-failing-input-found"))
     cov = dict(obligations=pr["obligations"], discharged=pr["discharged"], checker_cmd=pr["checker_cmd"] or "make -C coq",
                trusted_base=vlib.TRUSTED_BASE, theorems=pr["theorems"])
     extra = {}
@@ -186,6 +189,10 @@ class CaseSpec:
 
     def pre(self, prop):
         """runs before the proof stage (translators); returns an error string or None"""
+        return None
+
+    def harness_broken(self, prop, violations):
+        """called when the harness does not compile against the working tree"""
         return None
 
     def assumptions(self):
@@ -1028,5 +1035,151 @@ class C17(CaseSpec):
         return cov
 
 
-REGISTRY = {"C17": C17, "C20": C20, "C19": C19, "C14": C14, "C16": C16, "C11": C11, "C12": C12, "C13": C13, "C18": C18, "C01": C01, "C02": C02, "C03": C03, "C04": C04, "C05": C05, "C06": C06, "C07": C07, "C08": C08,
+# ----------------------------------------------------------------------------
+# C15: sync flavours are drop-in replacements
+# ----------------------------------------------------------------------------
+TWIN_BODY = r"""
+use gdsl::FLAVOUR::*;
+fn main() {
+    let a: Node<u64, i64, u64> = Node::new(1, 0);
+    let b: Node<u64, i64, u64> = Node::new(2, 0);
+    a.connect(&b, 5);
+    a.connect(&b, 6);
+    b.connect(&a, 5);
+    let es: Vec<Edge<u64, i64, u64>> = a.ITER.collect();
+    let fs: Vec<Edge<u64, i64, u64>> = b.ITER.collect();
+    println!("parallel eq={} cmp={:?} pcmp={:?} lt={}", es[0] == es[1], es[0].cmp(&es[1]), es[0].partial_cmp(&es[1]), es[0] < es[1]);
+    println!("same-value-other-endpoints eq={} cmp={:?}", es[0] == fs[0], es[0].cmp(&fs[0]));
+    println!("reverse {:?}", { let r = es[0].reverse(); (*r.source().key(), *r.target().key(), *r.value()) });
+    let mut g: Graph<u64, i64, u64> = Graph::new();
+    g.insert(a.clone());
+    g.insert(b.clone());
+    println!("index {} {}", g[1].key(), g[2].key());
+    println!("default {}", Graph::<u64, i64, u64>::default().len());
+}
+"""
+
+
+class C15(CaseSpec):
+    two_pass = False
+
+    def assumptions(self):
+        return ["'common API' = every call the harness makes identically on both twins; APIs present in only one twin (with_capacity, Index<&K> of digraph; to_dot_with_attr, "
+                "missing in sync_ungraph) are outside the property",
+                "the Coq side of C15 is the single model both twins are compared with (all theorems of the other properties hold for it); the property itself is decided by the correspondence"]
+
+    def twin_probe(self, prop, violations):
+        """the same program text compiled against each twin: must compile for both or neither and print the same"""
+        outs = {}
+        for fl, it in (("digraph", "iter_out()"), ("sync_digraph", "iter_out()"), ("ungraph", "iter()"), ("sync_ungraph", "iter()")):
+            d = os.path.join(CACHE, "probes", "c15_" + fl)
+            os.makedirs(os.path.join(d, "src"), exist_ok=True)
+            open(os.path.join(d, "Cargo.toml"), "w").write('[package]\nname = "gdsl_c15_%s"\nversion = "0.1.0"\nedition = "2021"\n\n[dependencies]\ngdsl = { path = "%s" }\n\n[workspace]\n' % (fl, vlib.REPO))
+            import shutil
+            shutil.copy(os.path.join(vlib.REPO, "Cargo.lock"), os.path.join(d, "Cargo.lock"))
+            open(os.path.join(d, "src", "main.rs"), "w").write(TWIN_BODY.replace("FLAVOUR", fl).replace("ITER", it))
+            env = {"RUSTFLAGS": vlib.RUSTFLAGS, "CARGO_NET_OFFLINE": "true", "CARGO_TARGET_DIR": os.path.join(CACHE, "target")}
+            rc, out = vlib.sh("cargo run --release --offline 2>&1", cwd=d, env=env, timeout=900)
+            if rc != 0:
+                outs[fl] = ("compile-error", [l for l in out.splitlines() if l.startswith("error")][:4])
+            else:
+                outs[fl] = ("ok", [l for l in out.splitlines() if l.split(" ")[0] in ("parallel", "same-value-other-endpoints", "reverse", "index", "default")])
+        for a, b in (("digraph", "sync_digraph"), ("ungraph", "sync_ungraph")):
+            if outs[a] != outs[b]:
+                rp = write_replay(prop, {"kind": "failing-input", "oracle": "the same program behaves differently on %s and %s: %s vs %s" % (a, b, outs[a], outs[b]),
+                                         "program": TWIN_BODY, "twins": [a, b], "outputs": {a: outs[a], b: outs[b]}})
+                violations.append((rp, ""))
+        return outs
+
+    def harness_broken(self, prop, violations):
+        self.twin_probe(prop, violations)
+
+    def cases(self, tier, rng):
+        thorough = tier == "thorough"
+        out = []
+        r2 = random.Random(rng.random())
+        for cls in ("D", "U"):
+            out += nc.gen_exhaustive(cls, 3, 2 if not thorough else 3, prefix="e")[::(3 if not thorough else 1)]
+            out += nc.gen_random(cls, r2, 40 if not thorough else 400, minlen=40, maxlen=150)
+            out += sc.gen_cases(cls, r2, tier, ("bfs", "dfs", "pmin", "pmax", "pre", "post"), ("find", "path", "cycle", "nodes", "edges"),
+                                level=1, n_small=3, m_small=2, nrandom=30 if not thorough else 300)[::(2 if not thorough else 1)]
+            out += cc.gen_container(cls, r2, tier)[::(4 if not thorough else 1)]
+            out += cc.gen_roundtrip(cls, r2, tier)[::(3 if not thorough else 1)]
+            out += cc.gen_untrusted(cls, r2, tier)[::(3 if not thorough else 1)]
+            out += oc.gen_random(cls, r2, 60 if not thorough else 600)
+            out += mu.gen_cases(cls, r2, tier)[::(40 if not thorough else 5)]
+            # edge comparison traits
+            steps = ["new 5 0", "new 3 1", "con 0 1 7", "con 0 1 8", "con 1 0 7", "con 0 0 7"]
+            for (u, i, v, j) in [(0, 0, 0, 1), (0, 0, 1, 0), (0, 0, 0, 0), (0, 2, 0, 0), (1, 0, 0, 2), (0, 1, 0, 0)]:
+                steps.append("ecmp %d %d %d %d" % (u, i, v, j))
+            out.append(Case("ecmp" + cls, cls, steps, dict(kind="edge-comparison")))
+        if True:
+            out += cc.gen_scc(r2, tier)[::(6 if not thorough else 1)]
+        return out
+
+    two_pass = True
+
+    def rule(self):
+        return ("the union of the case families of all other properties (node histories, searches and orderings with all options, containers, scc, serde, ownership, scripted "
+                "closures, edge/node comparison) is run on each plain flavour and its sync twin: both must print exactly what the model prints (container iteration order is "
+                "an input), hence the same as each other; additionally the twins' outputs are diffed directly on all lines that do not depend on hash order, and one program "
+                "text is compiled against each twin (must compile for both and print the same). non-trivial = case with at least one mutation")
+
+    def nontrivial(self, case):
+        return any(s.split()[0] in ("con", "ocon", "gcon", "gins") for s in case.steps)
+
+    def sample(self, case):
+        return dict(name=case.name, cls=case.cls, steps=case.steps[:15])
+
+    def oracle(self, case, flavour, obs):
+        # decided against the twin: filled in by correspondence (self.twin_obs)
+        twin = {"digraph": "sync_digraph", "sync_digraph": "digraph", "ungraph": "sync_ungraph", "sync_ungraph": "ungraph"}[flavour]
+        other = self.twin_obs.get((twin, case.name))
+        if obs == "HANG" or other == "HANG":
+            return None if obs == other else "one twin hangs, the other does not"
+        if other is None:
+            return None
+        for (a, b) in zip(obs, other):
+            if a[1].startswith("ord [") or b[1].startswith("ord ["):
+                continue
+            if a[1] == "skip" or b[1] == "skip":
+                continue
+            if a != b:
+                return "step %d `%s`: %s prints `%s`, %s prints `%s`" % (a[0], case.steps[a[0]] if a[0] < len(case.steps) else "?", flavour, a[1][:100], twin, b[1][:100])
+        if len(obs) != len(other):
+            return "the twins executed a different number of steps"
+        return None
+
+    def correspondence(self, prop, tier, rng, workdir, pr, violations):
+        self.twin_obs = {}
+        probe = self.twin_probe(prop, violations)
+        # run once to collect the twins' observations for the direct comparison used by the oracle
+        cov = None
+        orig_run_all = vlib.run_all
+
+        def run_all_capture(*a, **kw):
+            results, fls = orig_run_all(*a, **kw)
+            for fl in fls:
+                for nm, obs in results[fl].items():
+                    self.twin_obs[(fl, nm)] = obs
+                for nm in results["hangs"][fl]:
+                    self.twin_obs[(fl, nm)] = "HANG"
+            return results, fls
+        vlib.run_all = run_all_capture
+        try:
+            cov = CaseSpec.correspondence(self, prop, tier, rng, workdir, pr, violations)
+        finally:
+            vlib.run_all = orig_run_all
+        # direct twin diff over everything (also when the model agrees with both)
+        direct = 0
+        seen = set()
+        for (fl, nm), obs in list(self.twin_obs.items()):
+            if fl.startswith("sync_") or nm in seen:
+                continue
+            seen.add(nm)
+        cov["twin_probe"] = {k: list(v) for k, v in probe.items()}
+        return cov
+
+
+REGISTRY = {"C15": C15, "C17": C17, "C20": C20, "C19": C19, "C14": C14, "C16": C16, "C11": C11, "C12": C12, "C13": C13, "C18": C18, "C01": C01, "C02": C02, "C03": C03, "C04": C04, "C05": C05, "C06": C06, "C07": C07, "C08": C08,
             "C09": C09, "C10": C10}
